@@ -409,6 +409,35 @@ func (e *uxfEnv) linearise(cid, best0 int, final [][]int) (uxObs, []uxStepOut) {
 	return init, steps
 }
 
+// waitParked waits until the batch manager is parked in cv.Wait with nothing
+// on its way to wake it (no Enqueue recorded after it parked), or until it
+// has made maxGates environment calls (maxGates > 0).
+func (e *uxfEnv) waitParked(maxGates int) bool {
+	deadline := time.Now().Add(uxBound())
+	for {
+		e.lmu.Lock()
+		parked := false
+		for i := len(e.log) - 1; i >= 0; i-- {
+			t := e.log[i].typ
+			if t == uxfIdle {
+				parked = true
+				break
+			}
+			if t != uxfNewBlock {
+				break
+			}
+		}
+		e.lmu.Unlock()
+		if parked || (maxGates > 0 && int(atomic.LoadInt32(&e.gates)) >= maxGates) {
+			return true
+		}
+		if time.Now().After(deadline) {
+			return false
+		}
+		time.Sleep(20 * time.Microsecond)
+	}
+}
+
 func uxfRun(cd *uxChainData, cfg *uxfCfg, id int) (out uxPathOut) {
 	out.ID = json.RawMessage(fmt.Sprintf("%d", id))
 	out.Chains = uxTable
@@ -430,6 +459,11 @@ func uxfRun(cd *uxChainData, cfg *uxfCfg, id int) (out uxPathOut) {
 	e.s.cv = sync.NewCond(&uxfLocker{e: e})
 	if err := e.s.Start(); err != nil {
 		out.Error = err.Error()
+		return out
+	}
+	// the model starts with the batch manager parked
+	if !e.waitParked(0) {
+		out.Error = "free run: batch manager did not park after Start\n" + uxDump()
 		return out
 	}
 	nreq := 1 + r.Intn(cfg.MaxReq)
@@ -476,20 +510,8 @@ func uxfRun(cd *uxChainData, cfg *uxfCfg, id int) (out uxPathOut) {
 	}()
 	wg.Wait()
 	// quiescence: the last thing that happened is the batch manager parking
-	deadline := time.Now().Add(uxBound())
-	for {
-		e.lmu.Lock()
-		n := len(e.log)
-		idle := n > 0 && e.log[n-1].typ == uxfIdle
-		e.lmu.Unlock()
-		if idle || int(atomic.LoadInt32(&e.gates)) >= cfg.MaxGates {
-			break
-		}
-		if time.Now().After(deadline) {
-			out.Error = "free run: batch manager neither parked nor made environment calls\n" + uxDump()
-			break
-		}
-		time.Sleep(50 * time.Microsecond)
+	if !e.waitParked(cfg.MaxGates) {
+		out.Error = "free run: batch manager neither parked nor made environment calls\n" + uxDump()
 	}
 	// freeze the log, then read what every caller would get
 	e.lmu.Lock()
